@@ -1,6 +1,8 @@
 use crate::{core::Report, Args};
 
+pub mod c03;
 pub mod c04;
+pub mod l1;
 pub mod c07;
 pub mod c09;
 pub mod c10;
@@ -13,6 +15,7 @@ pub mod util;
 
 pub fn dispatch(id: &str, args: &Args) -> Option<Report> {
     Some(match id {
+        "C03" => c03::run(args),
         "C04" => c04::run(args),
         "C07" => c07::run(args),
         "C09" => c09::run(args),
